@@ -20,6 +20,10 @@ pub enum Op {
     /// a new observer connects and sends its handshake; if `with_delivery`, a supplier answers a request in the same
     /// barrier so that the Init and a completion race
     ObserverJoin { outgoing: bool, with_delivery: bool },
+    /// an outgoing connection (the client dialled): the client sends its handshake and bitfield at once, the remote's
+    /// own handshake arrives only later (op ObsHandshake)
+    ObserverJoinSilent,
+    ObsHandshake(u16),
     ObsChoke(u16),
     ObsUnchoke(u16),
     ObsDisconnect(u16),
@@ -39,6 +43,8 @@ fn strategy() -> BoxedStrategy<Case> {
         8 => any::<u16>().prop_map(Op::Deliver),
         1 => any::<u16>().prop_map(Op::DeliverCorrupt),
         2 => (any::<bool>(), any::<bool>()).prop_map(|(outgoing, with_delivery)| Op::ObserverJoin { outgoing, with_delivery }),
+        1 => Just(Op::ObserverJoinSilent),
+        2 => any::<u16>().prop_map(Op::ObsHandshake),
         2 => any::<u16>().prop_map(Op::ObsChoke),
         2 => any::<u16>().prop_map(Op::ObsUnchoke),
         1 => any::<u16>().prop_map(Op::ObsDisconnect),
@@ -58,6 +64,7 @@ struct Obs {
     log_seen: usize,
     chokes: bool,
     ever_choked_during_completion: bool,
+    handshake_sent: bool,
 }
 
 pub fn check(c: &Case) -> Outcome {
@@ -138,14 +145,30 @@ pub fn check(c: &Case) -> Outcome {
                         if observers.len() < 3 {
                             let p = net.connect(w, *outgoing);
                             net.handshake(w, p);
-                            observers.push(Obs { p, init_at: None, bitfield_checked: false, haves: vec![], log_seen: 0, chokes: true, ever_choked_during_completion: false });
+                            observers.push(Obs { p, init_at: None, bitfield_checked: false, haves: vec![], log_seen: 0, chokes: true, ever_choked_during_completion: false, handshake_sent: true });
                             if *with_delivery {
                                 deliver(&mut net, w, 0, false, &mut classes);
                                 classes.push("handshake-and-delivery-in-same-barrier");
                             }
                         }
                     }
+                    Op::ObserverJoinSilent => {
+                        if observers.len() < 3 {
+                            let p = net.connect(w, true);
+                            observers.push(Obs { p, init_at: None, bitfield_checked: false, haves: vec![], log_seen: 0, chokes: true, ever_choked_during_completion: false, handshake_sent: false });
+                            classes.push("outgoing-observer-handshakes-late");
+                        }
+                    }
+                    Op::ObsHandshake(i) => {
+                        let pending: Vec<usize> = live_obs.iter().copied().filter(|k| !observers[*k].handshake_sent).collect();
+                        if !pending.is_empty() {
+                            let ob = &mut observers[pending[idx(*i, pending.len())]];
+                            net.handshake(w, ob.p);
+                            ob.handshake_sent = true;
+                        }
+                    }
                     Op::ObsChoke(i) => {
+                        let live_obs: Vec<usize> = live_obs.iter().copied().filter(|k| observers[*k].handshake_sent).collect();
                         if !live_obs.is_empty() {
                             let ob = &mut observers[live_obs[idx(*i, live_obs.len())]];
                             net.choke(w, ob.p);
@@ -153,6 +176,7 @@ pub fn check(c: &Case) -> Outcome {
                         }
                     }
                     Op::ObsUnchoke(i) => {
+                        let live_obs: Vec<usize> = live_obs.iter().copied().filter(|k| observers[*k].handshake_sent).collect();
                         if !live_obs.is_empty() {
                             let ob = &mut observers[live_obs[idx(*i, live_obs.len())]];
                             net.unchoke(w, ob.p);
@@ -169,6 +193,10 @@ pub fn check(c: &Case) -> Outcome {
                 if k + tail == n_ops {
                     // final phase: every observer unchokes
                     for ob in observers.iter_mut() {
+                        if net.alive(w, ob.p) && !ob.handshake_sent {
+                            net.handshake(w, ob.p);
+                            ob.handshake_sent = true;
+                        }
                         if net.alive(w, ob.p) && ob.chokes {
                             net.unchoke(w, ob.p);
                             ob.chokes = false;
@@ -297,7 +325,7 @@ pub fn check(c: &Case) -> Outcome {
 pub fn def() -> PropDef {
     PropDef {
         id: "C11",
-        rule: "one or two supplier peers deliver single-block pieces (2-20 pieces of 1-40 bytes, or 20000-byte two-block pieces) at generated points of a global schedule of up to 60 ops, some deliveries corrupt; up to three observer connections (incoming or outgoing) handshake at generated points - also in the same barrier as a delivery - and choke / unchoke the client at generated points; at the end every observer unchokes. The harness knows A(t), the completion order the manager has handled (every command passes through the stepper), and D(t), the pieces verified on disk. Oracle: an observer's bitfield satisfies A(at its Init) <= bits <= D, spare bits zero; every Have(i) has i in D at the barrier it is read; for each observer the Haves for pieces completed after its Init arrive exactly in completion order, and whenever the observer is not choking the client none is missing. Non-trivial = an observer handshake after at least one and before the last completion, and a completion while that observer chokes the client; distinct by hash of the case.",
+        rule: "one or two supplier peers deliver single-block pieces (2-20 pieces of 1-40 bytes, or 20000-byte two-block pieces) at generated points of a global schedule of up to 60 ops, some deliveries corrupt; up to three observer connections (incoming or outgoing; outgoing ones may send their own handshake much later than the client's) handshake at generated points - also in the same barrier as a delivery - and choke / unchoke the client at generated points; at the end every observer unchokes. The harness knows A(t), the completion order the manager has handled (every command passes through the stepper), and D(t), the pieces verified on disk. Oracle: an observer's bitfield satisfies A(at its Init) <= bits <= D, spare bits zero; every Have(i) has i in D at the barrier it is read; for each observer the Haves for pieces completed after its Init arrive exactly in completion order, and whenever the observer is not choking the client none is missing. Non-trivial = an observer handshake after at least one and before the last completion, and a completion while that observer chokes the client; distinct by hash of the case.",
         assumptions: &[
             "fewer than 32 completions happen between two barriers of any connection task (the broadcast channel holds 32 commands; lagging receivers are a capacity question the property does not speak about)",
             "D is sampled at barriers; a bitfield is compared with D at the end of the barrier in which it was read (D is monotone)",
@@ -307,7 +335,7 @@ pub fn def() -> PropDef {
             cases: |t| t.pick(12_000, 150_000),
             run: |ctx| run_proptest(ctx, "announcements", strategy(), check),
             replay: |v| replay_case::<Case>(v, check),
-            min_class: &[("observer-handshake-between-completions", 0.3), ("completion-while-observer-chokes", 0.3), ("observer-bitfield-checked", 0.4288), ("handshake-and-delivery-in-same-barrier", 0.2), ("corrupt-completion", 0.2)],
+            min_class: &[("observer-handshake-between-completions", 0.3), ("completion-while-observer-chokes", 0.3), ("observer-bitfield-checked", 0.4288), ("handshake-and-delivery-in-same-barrier", 0.2), ("corrupt-completion", 0.2), ("outgoing-observer-handshakes-late", 0.1)],
         }],
     }
 }
